@@ -58,6 +58,51 @@ IsPrefix2(a, b) == Len(a) <= Len(b) /\ \A i \in 1..Len(a) : a[i] = b[i]
 OutV == [i \in 1..Len(out) |-> Vis(out[i])]
 RefV == [i \in 1..Len(Ref.out) |-> Vis(Ref.out[i])]
 
+(* Denotation of a SUSPENDED computation (the refinement mapping of the engine onto "the answers
+   still owed"): engine goals are read back as goal ASTs and given their reference meaning. *)
+RECURSIVE AstOf(_)
+CommitClauses(g) ==
+  LET RECURSIVE Go(_)
+      Go(x) == IF x[1] \in {"conda", "condu"} THEN << <<AstOf(x[2]), AstOf(x[3])>> >> \o Go(x[4]) ELSE <<>>
+  IN Go(g)
+AstOf(g) ==
+  CASE g[1] \in {"succeed", "fail"} -> g
+    [] g[1] = "atom" -> g[2]
+    [] g[1] \in {"conj", "dconj"} -> <<"rawconj", AstOf(g[2]), AstOf(g[3])>>
+    [] g[1] \in {"disj", "ddisj"} -> <<"rawdisj", AstOf(g[2]), AstOf(g[3])>>
+    [] g[1] \in {"conde", "dconde"} -> <<"conde", [i \in 1..Len(g[2]) |-> <<AstOf(g[2][i])>>]>>
+    [] g[1] \in {"fresh", "dfresh"} -> <<"fresh", <<>>, <<AstOf(g[2])>> >>
+    [] g[1] = "closure" -> <<"closure", g[3]>>
+    [] g[1] = "call" -> <<"call", g[3], g[4]>>
+    [] g[1] = "anyo" -> <<"loop", << <<AstOf(g[2])>> >> >>
+    [] g[1] \in {"conda", "condu"} ->
+         (* a chain that ends in a goal other than fail cannot be written as a clause list; the
+            constructors only build chains that end in fail *)
+         <<g[1], CommitClauses(g)>>
+    [] g[1] = "project" -> <<"project", g[3], g[4]>>
+    [] g[1] = "everyg" -> <<"for", g[3], g[4], g[5]>>
+
+RECURSIVE OwedL(_)
+RECURSIVE OwedS(_)
+RECURSIVE OwedFrom(_, _)
+OwedFrom(a, Ss) == IF Len(Ss) = 0 THEN <<>> ELSE Eval(a, Head(Ss), 50, NoDefs).out \o OwedFrom(a, Tail(Ss))
+OwedL(l) ==
+  CASE l[1] \in {"bind", "bindD"} -> OwedFrom(AstOf(l[3]), OwedL(l[2]))
+    [] l[1] \in {"mplus", "mplusD"} -> OwedL(l[2]) \o OwedL(l[3])
+    [] l[1] \in {"pause", "pauseD"} -> Eval(AstOf(l[3]), l[2], 50, NoDefs).out
+    [] l[1] = "delay" -> OwedS(l[2])
+OwedS(s) ==
+  CASE s[1] = "empty" -> <<>>
+    [] s[1] = "unit" -> <<s[2]>>
+    [] s[1] = "lazy" -> OwedL(s[2])
+    [] s[1] = "cons" -> <<s[2]>> \o OwedL(s[3])
+
+(* C06/C10: every engine step preserves the multiset "emitted so far + still owed" *)
+StepPreservesBag ==
+  (phase \in {"run", "exhausted"} /\ ~Ref.cut) =>
+     LET owed == OwedS(stream) IN
+     SameBagSeq(OutV \o [i \in 1..Len(owed) |-> Vis(owed[i])], RefV)
+
 (* C06: nothing is invented at any time; C05: in DFS the emitted sequence is a prefix of the
    reference sequence at any time *)
 NoInvention == phase \in {"run", "exhausted"} /\ ~Ref.cut => SubBagSeq(OutV, RefV)
